@@ -4,7 +4,7 @@ import re
 from analysis import (Prov, Guards, fmt, fmt_short, walk, roots, short, comparison, find_calls, callee_matches,
                       must_pass, path_to, describe_path, const_int_of, edge_label)
 from facts import AnchorError, strip_closure
-from harness import Rule
+from harness import Rule, guarded
 from c01 import bool_pass_edges, derives
 
 PID = "C12"
@@ -286,5 +286,6 @@ def r4(ctx):
 
 
 def run(ctx):
-    a, b = r3_r5(ctx)
-    return [r1(ctx), r2(ctx), a, r4(ctx), b]
+    G = lambda l, f, *a: guarded("C12." + l, f, ctx, *a)
+    x = G("R3-R5", r3_r5)
+    return G("R1", r1) + G("R2", r2) + x[:1] + G("R4", r4) + x[1:]
